@@ -85,6 +85,9 @@ META["rule"] += (
 META["rule"] += (
     " " + 'Added later: windows that select no sample are applied too: the library must refuse them and the object must then be in the state it was in.')
 
+META["rule"] += (
+    " " + "Added after the sixth round: 15 % of the history steps continue on a copy.copy / deep copy / pickle round trip of the object; every set_window compares the caller's dictionary before and after.")
+
 KEYS = ("time_min", "time_max", "lat_min", "lat_max", "lon_min", "lon_max")
 
 
@@ -594,6 +597,26 @@ def run_history(ctx, Data, ClimateData, GeoGrid, cid, r, climate):
     wdict = {}
     L = int(r.integers(1, 9 if ctx.thorough else 5))
     for step in range(L):
+        if r.random() < 0.15:
+            # the work continues on a copy of the object (copy.copy, a deep
+            # copy or a pickle round trip): it is in the same state
+            import copy as _copy
+            import pickle as _pickle
+            how = str(r.choice(["copy", "deepcopy", "pickle"]))
+            okc, d2 = ctx.call(
+                {"copy": _copy.copy, "deepcopy": _copy.deepcopy,
+                 "pickle": lambda o: _pickle.loads(_pickle.dumps(o))}[how],
+                d)
+            ctx.evals()
+            if okc:
+                d = d2
+                ctx.count("continued_on_a_clone:" + how)
+                case["history"].append([how])
+                if observe(ctx, d, m, cls, kind, cid, case, climate,
+                           prev=prev_view) is None:
+                    return
+            else:
+                ctx.count("clone_not_possible:" + how)
         u = r.random()
         if u < 0.2:
             op = "global"
@@ -645,8 +668,16 @@ def run_history(ctx, Data, ClimateData, GeoGrid, cid, r, climate):
                 wdict.update(w)
                 w = wdict
                 ctx.count("window_dict_reused")
+            w_before = dict(w)
             ok, e = ctx.call(d.set_window, w)
             ctx.evals()
+            if {k: (type(v), v) for k, v in w.items()} != \
+                    {k: (type(v), v) for k, v in w_before.items()}:
+                ctx.violation(f"{cls}.set_window:edits-the-caller's-window-"
+                              f"dictionary:{kind}",
+                              {**case, "given": w_before, "now": dict(w)},
+                              cid)
+                w = dict(w_before)
             case["history"].append(["set_window",
                                     {k: float(v) for k, v in w.items()}])
             if not ok:
